@@ -8,7 +8,9 @@ P1, P2, PR = "Player 1", "Player 2", "Probabilistic"
 OWNERS = (P1, P2, PR)
 NAMES = ("a", "b", "c", "d", "e", "f")
 # action names that are prefixes / substrings of each other, empty, blank, or look like other tokens
-TRICKY_NAMES = ("a", "aa", "ab", "", " ", "b", "None", "a,b", "Down", "down", "0")
+TRICKY_NAMES = ("a", "aa", "ab", "", " ", "b", "None", "a,b", "Down", "down", "0",
+                # characters that mean something to pattern matchers, formatters and parsers
+                "a[1]", "[a]", "*", "a*", "?", "a b", " a", "a ", "%s", "{}", "1/4", "a\\b", "'", "#")
 REWARD_POOL = (0, 0, 0, 1, 1, 2, 3, 5, 0.5, 7.25, 1000, 1e6, 1e-3, 2.5e7, -0.0, True, 1e20, 10 ** 25)
 GENERIC_REWARDS = (0, 1, 2.5, 3.25, 5 / 7, 11 / 7, 13 / 7, 1.4142135623730951, 0.3, 4.75, 6.125, 17 / 3)
 
@@ -135,8 +137,9 @@ def stopping_games(draw, min_inner=1, max_inner=8, dyadic=None, rewards=REWARD_P
         finals = list(draw(st.permutations(finals)))
     if inner_finals and ni >= 2 and draw(st.integers(0, 2)) == 0:
         # final states that are not absorbing: play (and reward collection) goes on after visiting them
+        init_too = draw(st.integers(0, 3)) == 0          # the initial state itself may be a final state
         for a in draw(st.lists(st.integers(0, ni - 1), min_size=1, max_size=2, unique=True)):
-            if ids[a] != 0:
+            if ids[a] != 0 or init_too:
                 finals.insert(draw(st.integers(0, len(finals))), ids[a])
     if draw(st.integers(0, 5)) == 0:
         # the same final state listed twice (or three times): a legal way to write the same set down
